@@ -573,3 +573,16 @@ OBLIGATIONS = {
             ("core", "ExprGroup::inner_exprs"), ("core", "ExprGroup::is_replaceable"),
             ("gen", "JoinOutput::generate_def_and_step_streams")],
 }
+
+
+def reused_contracts():
+    """labels of functions that appear with their contract only in some modules but are VERIFIED in another one"""
+    out = {}
+    for un in core_units():
+        if un.get("kind") == "fns":
+            for f in un["fns"]:
+                lab = f["name"] if not un.get("self_ty") else ("%s::%s" % (un["self_ty"], f["name"]) if not un.get("trait_") else "<%s as %s>::%s" % (un["self_ty"], un["trait_"], f["name"]))
+                if f.get("mode") != "assumed":
+                    out[lab] = "core"
+    out["ActionGroup::parse_stream"] = "parse"
+    return out
